@@ -611,9 +611,10 @@ class KeychainSqlite3(Keychain):
         cert_name = sign_args.get('cert', None)
         if not cert_name:
             key_name = sign_args.get('key', None)
-            if not key_name:
+            # Note: Identity and Key objects are mappings and thus falsy when they are empty
+            if not key_name and not isinstance(key_name, Key):
                 id_name = sign_args.get('identity', None)
-                if id_name:
+                if id_name or isinstance(id_name, Identity):
                     if isinstance(id_name, Identity):
                         identity = id_name
                     else:
